@@ -99,6 +99,40 @@ CloseBodies(r) ==
                                    rs \in {<<>>, Ascii, Utf8Two, BadByte, BadTrunc, BadOverlong, BadSurrogate, BadRange, BadCont, LongAscii, BadLong} }
 McHeader(r, L) == HeaderAlpha(r, L) \cup CloseBodies(r)
 
+\* ------------------------------------------------------------ "bufsize": frame sizes relative to the configured read buffer
+\* b = configured read buffer size (0: default). Control frames of every legal payload size around b (they are the
+\* frames a receiver has to take in whole), data frames whose payload / whose whole frame is around b, one oversized
+\* control frame. The expected outcome does not depend on b - only the alphabet is placed relative to it.
+BufDefault == 4096
+CapOf(b)   == IF b = 0 THEN BufDefault ELSE b
+Near(s)    == {v \in {s - 1, s, s + 1} : v >= 0}
+CtlSizes(b) == {v \in {0, 1, 124, 125} \cup Near(CapOf(b)) : v <= 125}
+Reason(k)  == [i \in 1..k |-> 97]
+BufAlpha(r, b) == LET m == M(r)  s == CapOf(b) IN
+  { Fr(9, TRUE, 0, m, Lengths(v)) : v \in CtlSizes(b) } \cup
+  { Fr(10, TRUE, 0, m, Lengths(v)) : v \in CtlSizes(b) \ {1, 124} } \cup
+  { CloseFr(TRUE, 0, m, 1000, Reason(v - 2)) : v \in {w \in CtlSizes(b) : w >= 2} } \cup
+  { Fr(1, TRUE, 0, m, Lengths(v)) : v \in Near(s) \cup (IF s >= 6 THEN {s - 6, s - 2} ELSE {}) } \cup
+  { Fr(2, FALSE, 0, m, Lengths(v)) : v \in Near(s) } \cup
+  { Fr(0, TRUE, 0, m, Lengths(v)) : v \in Near(s) } \cup
+  { Fr(0, FALSE, 0, m, Lengths(s)), Fr(9, TRUE, 0, m, Lengths(126)) }
+\* thinned (quick tier): every control size, fewer data frames
+BufAlphaThin(r, b) == LET m == M(r)  s == CapOf(b) IN
+  { Fr(9, TRUE, 0, m, Lengths(v)) : v \in CtlSizes(b) } \cup
+  { Fr(10, TRUE, 0, m, Lengths(v)) : v \in CtlSizes(b) \ {0, 1, 124} } \cup
+  { CloseFr(TRUE, 0, m, 1000, Reason(v - 2)) : v \in {w \in CtlSizes(b) : w >= 2 /\ w # 124} } \cup
+  { Fr(1, TRUE, 0, m, Lengths(v)) : v \in Near(s) } \cup
+  { Fr(2, FALSE, 0, m, Lengths(s)), Fr(0, TRUE, 0, m, Lengths(s + 1)), Fr(9, TRUE, 0, m, Lengths(126)) }
+
+\* the same for two receivers in lockstep (MC_WsReaderBuf): one alphabet for every buffer size
+BufMc(r, L) == LET m == M(r) IN
+  { Fr(9, TRUE, 0, m, Lengths(v)) : v \in {0, 1, 2, 14, 15, 64, 65, 125} } \cup
+  { Fr(10, TRUE, 0, m, Lengths(v)) : v \in {0, 65, 125} } \cup
+  { CloseFr(TRUE, 0, m, 1000, Reason(v - 2)) : v \in {2, 15, 65, 125} } \cup
+  { Fr(1, TRUE, 0, m, Lengths(v)) : v \in {0, 15, 126} } \cup
+  { Fr(2, FALSE, 0, m, Lengths(1)), Fr(0, TRUE, 0, m, Lengths(64)), Fr(0, FALSE, 0, m, Lengths(2)),
+    Fr(9, TRUE, 0, m, Lengths(126)), Fr(9, FALSE, 0, m, Lengths(2)), Fr(1, TRUE, 4, m, Lengths(5)) }
+
 \* model checking, deeper, thinned
 McDeep(r, L) == Framing(r) \cup (IF L > 0 THEN LimAlpha(r, L) ELSE {})
 =============================================================================
